@@ -135,10 +135,18 @@ func (r *real) apply(ws []string) (out string) {
 	return "bad-op"
 }
 
-// monitor: the overlay map of the property statement (histories without Cancel* operations).
+// monitor: the overlay map of the property statement. An overlay is the set of pending writes plus the
+// multiset of pending deletes over the last commit; Cancel* undo one pending write / one pending delete.
+type overlay struct {
+	written map[uint64]uint64
+	deleted map[uint64]int
+}
+
+func newOverlay() *overlay { return &overlay{written: map[uint64]uint64{}, deleted: map[uint64]int{}} }
+
 type monitor struct {
 	committed []map[uint64]uint64
-	fin, chk  map[uint64]uint64
+	fin, chk  *overlay
 }
 
 func cp(m map[uint64]uint64) map[uint64]uint64 {
@@ -148,50 +156,91 @@ func cp(m map[uint64]uint64) map[uint64]uint64 {
 	}
 	return r
 }
-func newMonitor() *monitor {
-	return &monitor{fin: map[uint64]uint64{}, chk: map[uint64]uint64{}}
-}
+func newMonitor() *monitor { return &monitor{fin: newOverlay(), chk: newOverlay()} }
 func (m *monitor) last() map[uint64]uint64 {
 	if len(m.committed) == 0 {
 		return map[uint64]uint64{}
 	}
 	return m.committed[len(m.committed)-1]
 }
-func mval(m map[uint64]uint64, k uint64) string {
-	if v, ok := m[k]; ok {
+func (m *monitor) view(o *overlay, k uint64) (uint64, bool) {
+	if v, ok := o.written[k]; ok {
+		return v, true
+	}
+	if o.deleted[k] > 0 {
+		return 0, false
+	}
+	v, ok := m.last()[k]
+	return v, ok
+}
+func sval(v uint64, ok bool) string {
+	if ok {
 		return fmt.Sprintf("val %d", v)
 	}
 	return "val none"
+}
+func mval(m map[uint64]uint64, k uint64) string {
+	v, ok := m[k]
+	return sval(v, ok)
+}
+func (m *monitor) del(o *overlay, k uint64) string {
+	v, ok := m.view(o, k)
+	if ok {
+		delete(o.written, k)
+		o.deleted[k]++
+	}
+	return sval(v, ok)
 }
 func (m *monitor) apply(ws []string) string {
 	u := func(i int) uint64 { n, _ := strconv.ParseUint(ws[i], 10, 64); return n }
 	switch ws[0] {
 	case "set":
-		m.chk[u(1)] = u(2)
+		m.chk.written[u(1)] = u(2)
+		return "unit"
+	case "cancelSet":
+		delete(m.chk.written, u(1))
 		return "unit"
 	case "get":
-		return mval(m.chk, u(1))
+		return sval(m.view(m.chk, u(1)))
 	case "del":
-		r := mval(m.chk, u(1))
-		delete(m.chk, u(1))
-		return r
+		return m.del(m.chk, u(1))
+	case "cancelDel":
+		if m.chk.deleted[u(1)] > 0 {
+			m.chk.deleted[u(1)]--
+		}
+		return "unit"
 	case "setF":
-		m.fin[u(1)] = u(2)
+		m.fin.written[u(1)] = u(2)
+		return "unit"
+	case "cancelSetF":
+		delete(m.fin.written, u(1))
 		return "unit"
 	case "getF":
-		return mval(m.fin, u(1))
+		return sval(m.view(m.fin, u(1)))
 	case "delF":
-		r := mval(m.fin, u(1))
-		delete(m.fin, u(1))
-		delete(m.chk, u(1))
-		return r
+		m.del(m.chk, u(1)) // a consensus delete also deletes from the mempool overlay
+		return m.del(m.fin, u(1))
+	case "cancelDelF":
+		if m.fin.deleted[u(1)] > 0 {
+			m.fin.deleted[u(1)]--
+		}
+		return "unit"
 	case "read":
 		return mval(m.last(), u(1))
 	case "iterAll":
 		return "" // not judged by the monitor
 	case "commit":
-		m.committed = append(m.committed, cp(m.fin))
-		m.chk = cp(m.fin)
+		next := cp(m.last())
+		for k, n := range m.fin.deleted {
+			if n > 0 {
+				delete(next, k)
+			}
+		}
+		for k, v := range m.fin.written {
+			next[k] = v
+		}
+		m.committed = append(m.committed, next)
+		m.fin, m.chk = newOverlay(), newOverlay()
 		return fmt.Sprintf("ver %d", len(m.committed))
 	case "readAt":
 		n, _ := strconv.ParseInt(ws[1], 10, 64)
@@ -203,8 +252,7 @@ func (m *monitor) apply(ws []string) string {
 		}
 		return mval(m.committed[n-1], u(2))
 	case "reopen":
-		m.fin = cp(m.last())
-		m.chk = cp(m.last())
+		m.fin, m.chk = newOverlay(), newOverlay()
 		return "unit"
 	case "version":
 		return fmt.Sprintf("ver %d", len(m.committed))
@@ -370,12 +418,9 @@ func Run(seed uint64, tier, work, driver string, replay []string) *common.Result
 			distinct.Add(strings.Join(ops, ";"))
 		}
 		// independent monitor (only meaningful without Cancel* operations)
-		if !hasCancel(ops) {
+		{
 			if idx, exp := monitorCheck(ops, outs); idx >= 0 {
 				fails := func(c []string) bool {
-					if hasCancel(c) {
-						return false
-					}
 					o, err := runReal(work, 1<<20, c)
 					if err != nil {
 						return false
@@ -391,6 +436,10 @@ func Run(seed uint64, tier, work, driver string, replay []string) *common.Result
 		}
 		if i < 3 {
 			res.Samples = append(res.Samples, strings.Join(ops, "; "))
+		}
+		if len(res.Violations) >= 3 {
+			hist = hist[:i+1]
+			break
 		}
 	}
 	res.DistinctNontrivial = len(distinct)
